@@ -6,7 +6,19 @@ fn main() {
     let data = if a[2].starts_with("-hex:") { verif_harness::util::unhex(&a[2][5..]) } else { std::fs::read(&a[2]).unwrap() };
     let mut c = yara_x::Compiler::new();
     if std::env::var_os("PROBE_RELAXED").is_some() { c.relaxed_re_syntax(true); }
+    if let Ok(m) = std::env::var("PROBE_IGNORE") { c.ignore_module(m); }
+    // sources separated by a line `//NS name` go to separate namespaces
+    let text = String::from_utf8_lossy(&src).to_string();
+    if text.contains("//NS ") {
+        for part in text.split("//NS ").skip(1) {
+            let (ns, body) = part.split_once('\n').unwrap_or((part, ""));
+            c.new_namespace(ns.trim());
+            match c.add_source(body) { Ok(_) => println!("add_source[{}]: Ok", ns.trim()), Err(e) => println!("add_source[{}]: Err {}", ns.trim(), e) }
+        }
+        for w in c.warnings() { println!("{}", w); }
+    } else {
     match c.add_source(src.as_slice()) { Ok(_) => println!("add_source: Ok"), Err(e) => println!("add_source: Err {}", e) }
+    }
     println!("errors={} warnings={} ignored={}", c.errors().len(), c.warnings().len(), c.ignored_rules().count());
     let rules = c.build();
     let mut s = yara_x::Scanner::new(&rules);
